@@ -54,7 +54,7 @@ def run_unit(name, tier, seed):
     if tier == 'quick':
         passes = [dict(kinds=KINDS, D=8, budget=2000, alphabet=red)]
     else:
-        passes = [dict(kinds=KINDS, D=10, budget=20000, alphabet=full)]
+        passes = [dict(kinds=KINDS, D=10, budget=8000, alphabet=full)]
     return f1.multi(name, passes, judge, judge_concrete)
 
 
@@ -74,6 +74,6 @@ def describe():
              'non-trivial = histories with a removal whose twin could be built',
         functions=['xmlelement/xmlelement.py:XMLElement.remove', 'XMLElement._convert_attribute_to_child', 'XMLElement.add_child',
                    'xmlelement/xmlchildcontainer.py:XMLChildContainer.add_element', 'XMLChildContainer.check_required_elements'],
-        bounds=dict(exploration='breadth-first over reachable states, depth <= 8 (10), path budget 2000 (20000) per class', outside='longer histories; histories with forward adds or replacements'),
+        bounds=dict(exploration='breadth-first over reachable states, depth <= 8 (10), path budget 2000 (8000) per class', outside='longer histories; histories with forward adds or replacements'),
         assumptions=['if the twin (fresh element + remaining children) cannot be built the case is skipped and counted'],
         exhaustive_within_bounds=True)
